@@ -40,7 +40,7 @@
 //! ```
 use ironplc_dsl::{
     common::*,
-    configuration::ConfigurationDeclaration,
+    configuration::{ConfigurationDeclaration, ProgramConnectionSink, ProgramConnectionSource},
     core::{Id, Located},
     diagnostic::{Diagnostic, Label},
     visitor::Visitor,
@@ -107,6 +107,24 @@ impl Visitor<Diagnostic> for SymbolTable<'_, Id, DummyNode> {
         let ret = node.recurse_visit(self);
         self.exit();
         ret
+    }
+
+    fn visit_program_connection_source(
+        &mut self,
+        node: &ProgramConnectionSource,
+    ) -> Result<(), Diagnostic> {
+        // The destination is an input of the program. That variable is
+        // declared in the program and not in the scope of the configuration.
+        self.visit_program_connection_source_kind(&node.src)
+    }
+
+    fn visit_program_connection_sink(
+        &mut self,
+        node: &ProgramConnectionSink,
+    ) -> Result<(), Diagnostic> {
+        // The source is an output of the program. That variable is
+        // declared in the program and not in the scope of the configuration.
+        self.visit_program_connection_sink_kind(&node.dst)
     }
 
     fn visit_var_decl(&mut self, node: &VarDecl) -> Result<Self::Value, Diagnostic> {
